@@ -1,6 +1,7 @@
 (* C16 — proofs.  Everything is over exact rationals (every binary64 value is one). *)
 From Coq Require Import List ZArith QArith Qabs Bool Arith Lia Lqa.
 Import ListNotations.
+From PP Require Lib.RowLin Lib.RowInv.
 From PP Require Import Model.C16.
 Local Open Scope Q_scope.
 
@@ -354,6 +355,7 @@ Lemma certificate_sound : forall tol I t,
   /\ (forall r, In r (system_rows I) -> Qabs (rdot r (sv (cls_of I) t)) <= bound tol r t).
 Proof.
   intros tol I t H Hlen. unfold check in H.
+  apply andb_prop in H. destruct H as [H Hinv].
   apply andb_prop in H. destruct H as [H Hsys].
   apply andb_prop in H. destruct H as [H Hnorm].
   apply andb_prop in H. destruct H as [H Hrot].
@@ -466,10 +468,54 @@ true; true; true; true; false] [[(0%nat, (4 # 1)); (6%nat, (1 # 1)); (8%nat, ((-
 2)); (3%nat, (1 # 2))]; [(12%nat, (1 # 1))]; [(13%nat, (1 # 1))]; [(0%nat, (1 # 1)); (14%nat, ((-1)
 # 4))]; [(1%nat, (1 # 1)); (15%nat, ((-1) # 4))]; [(16%nat, (1 # 1))]; [(17%nat, (1 # 1))];
 [(18%nat, (1 # 1))]; [(19%nat, (1 # 1))]; [(20%nat, (1 # 1))]; [(3%nat, (1 # 1)); (21%nat, (1 #
-4))]] [(1 # 1); (1 # 1); (1 # 2); (1 # 2)]).
+4))]] [(1 # 1); (1 # 1); (1 # 2); (1 # 2)] (Some ([[((-6785) # 1); ((-1060) # 1); (10460 # 1); (2720
+# 1); ((-775) # 1); ((-1060) # 1); ((-1060) # 1); ((-2720) # 1)]; [((-1060) # 1); ((-6116) # 1);
+(6640 # 1); ((-6128) # 1); ((-380) # 1); ((-1724) # 1); ((-3920) # 1); (272 # 1)]; [((-775) # 1);
+((-380) # 1); (1540 # 1); (2080 # 1); ((-4145) # 1); ((-380) # 1); ((-380) # 1); ((-2080) # 1)];
+[((-1060) # 1); ((-1724) # 1); (6640 # 1); ((-272) # 1); ((-380) # 1); ((-6116) # 1); ((-3920) # 1);
+(6128 # 1)]; [(10460 # 1); (6640 # 1); ((-100880) # 1); (640 # 1); (1540 # 1); (6640 # 1); (6640 #
+1); ((-640) # 1)]; [((-1060) # 1); ((-3920) # 1); (6640 # 1); ((-3200) # 1); ((-380) # 1); ((-3920)
+# 1); ((-62480) # 1); (3200 # 1)]; [((-2720) # 1); (6128 # 1); ((-640) # 1); ((-58816) # 1);
+((-2080) # 1); (272 # 1); (3200 # 1); ((-11456) # 1)]; [(2720 # 1); ((-272) # 1); (640 # 1);
+((-11456) # 1); (2080 # 1); ((-6128) # 1); ((-3200) # 1); ((-58816) # 1)]], (58560 # 1)))).
 
 Lemma ex_inst_check : check 0 ex_inst = true.
 Proof. vm_compute. reflexivity. Qed.
 
 Lemma ex_inst_certified : certified ex_inst.
 Proof. apply exact_certified; vm_compute; reflexivity. Qed.
+
+(* ------------------------------------------------------------------ non-singularity per instance *)
+Lemma rdot_same : forall r v, RowLin.rdot r v = rdot r v.
+Proof. induction r as [|ja r IH]; intros v; cbn [RowLin.rdot rdot]; [reflexivity|]. rewrite IH. reflexivity. Qed.
+
+Lemma nonsingular_certificate : forall I N d,
+  RowInv.inv_ok (ndof I) (system_rows I) N d = true ->
+  forall v : vec, (forall j, (ndof I <= j)%nat -> v j == 0) ->
+                  (forall r, In r (system_rows I) -> rdot r v == 0) ->
+                  forall j, (j < ndof I)%nat -> v j == 0.
+Proof.
+  intros I N d H v Hv Hres.
+  apply (RowInv.left_inverse_kernel (ndof I) (system_rows I) N d v H Hv).
+  intros r Hr. rewrite rdot_same. apply Hres. exact Hr.
+Qed.
+
+Lemma check_inv : forall tol I N d,
+  check tol I = true -> i_inv I = Some (N, d) ->
+  RowInv.inv_ok (ndof I) (system_rows I) N d = true.
+Proof.
+  intros tol I N d H E. unfold check in H. apply andb_prop in H. destruct H as [_ H].
+  unfold inv_cert_ok in H. rewrite E in H. exact H.
+Qed.
+
+(* the translation is THE solution on a certified, exactly certified instance *)
+Lemma unique_solution_certified : forall I N d t (x : vec),
+  certified I -> RowInv.inv_ok (ndof I) (system_rows I) N d = true -> length t = i_nd I ->
+  (forall j, (ndof I <= j)%nat -> x j == sv (cls_of I) t j) ->
+  (forall r, In r (system_rows I) -> rdot r x == 0) ->
+  forall j, (j < ndof I)%nat ->
+    x j == if (j <? i_nd I * i_nc I)%nat then nth (j mod i_nd I) t 0 else 0.
+Proof.
+  intros I N d t x HC Hinv Hlen. apply (tpsa_unique_solution I t x HC Hlen).
+  exact (nonsingular_certificate I N d Hinv).
+Qed.
